@@ -195,7 +195,9 @@ func cmdCheck(args []string) int {
 		if kinds := u.Block.PropKinds[*prop]; kinds != nil {
 			var kept []*Obligation
 			for _, o := range u.Ctx.obls {
-				if o.Expect == "sat" || kindAllowed(kinds, o.Kind) {
+				// loop invariants are assumed by every obligation behind the loop:
+				// their own obligations are never filtered out
+				if o.Expect == "sat" || kindAllowed(kinds, o.Kind) || o.Kind == "inv-init" || o.Kind == "inv-step" {
 					kept = append(kept, o)
 				}
 			}
